@@ -296,6 +296,33 @@ class Gen(object):
             # register the field for later expressions (only unconditional-or-not: any; refs to
             # absent fields simply evaluate to unknown)
             self.register(env, f)
+        # virtual fields at the boundaries of the C++ integer types: the back end
+        # picks int32/uint32/int64/uint64 from the inferred range
+        wide = []
+        for f in st.fields:
+            for g in [f] + (f.anon or []):
+                t = g.typ
+                if t is not None and not g.is_virtual and not t.dims and t.kind in ("UInt", "Int") and t.bits in (31, 32, 33, 63, 64) and g.requires is None and (g is f or f.cond is None):
+                    wide.append(g)
+        for g in wide[:2]:
+            if r.random() < 0.6:
+                k = r.choice([0, 1, 1, 2])
+                if g.typ.bits == 64 and g.typ.kind == "UInt":
+                    k = 0
+                op = "-" if (g.typ.kind == "Int" and r.random() < 0.5) else "+"
+                v = M.Field(self.name("v"), value=("op", op, ("r", (g.name,)), ("n", k)))
+                v.cond = g.cond
+                st.fields.append(v)
+                env.all_fields.append(v.name)
+                self.features.add("boundary-virtual")
+        if r.random() < 0.25:
+            c = r.choice([2**31 - 1, 2**31, 2**32 - 1, 2**32, 2**63 - 1, 2**63, 2**64 - 1, -(2**31), -(2**31) - 1, -(2**63)])
+            v = M.Field(self.name("v"), value=("n", c))
+            st.fields.append(v)
+            self.features.add("boundary-constant")
+            if env.bools and r.random() < 0.6 and abs(c) < 2**63:
+                v2 = M.Field(self.name("v"), value=("?:", ("r", r.choice(env.bools)), ("n", c), ("n", c - 1)))
+                st.fields.append(v2)
         if r.random() < 0.15 and len(env.ints) >= 2:
             a, b = r.sample(env.ints, 2)
             st.requires = ("op", r.choice(["<=", "!=", ">="]), ("r", a[0]), ("r", b[0]))
